@@ -397,7 +397,23 @@ pub fn run(rep: &Report) {
         match tok::lex(&tight) {
             Ok(o) if o.toks == toks && !o.d6 => {
                 l.label("also written without spaces");
-                check_source(&tight, &c.ctx, c.perm, Some(&c.ast), l)
+                l.evaluations += 1;
+                check_source(&tight, &c.ctx, c.perm, Some(&c.ast), l)?;
+            },
+            _ => {},
+        }
+        // ... and with comments (non-ASCII text, line and block) between the tokens: the identifiers
+        // of an expression do not depend on how its tokens are separated
+        let commented: String = toks
+            .iter()
+            .enumerate()
+            .map(|(i, t)| format!("{}{}", t.text(), if i % 3 == 0 { " /* ü → 日 */ " } else if i % 3 == 1 { " // zurück\n" } else { " " }))
+            .collect();
+        match tok::lex(&commented) {
+            Ok(o) if o.toks == toks && !o.d6 => {
+                l.label("also written with comments between the tokens");
+                l.evaluations += 1;
+                check_source(&commented, &c.ctx, c.perm, Some(&c.ast), l)
             },
             _ => Ok(()),
         }
